@@ -10,32 +10,36 @@ Executable model of the console path of log4rs (unix), function by function, as 
   encode/writer/simple.rs    SimpleWriter (set_style is the trait's default no-op)
   encode/pattern/mod.rs      FormattedChunk::Highlight (style per level, chunks, reset)
 
-Two flags select between the code as it is and the proposed repairs; their defaults are the
-CURRENT code:
-  `bufLen`             length of the stack buffer in `AnsiWriter::set_style`   (12; repaired: 13)
-  `ttyOnlyUsesIsatty`  `do_write` decided from an isatty test of the target stream instead of
-                       from "a colour ConsoleWriter was obtained"              (false; repaired: true)
-Every function that depends on a flag also exists with the flag as an explicit argument
-(`setStyleN`, `doWriteWith`, `appendWith`), so the repaired code is *the same function*.
+Two parameters keep the two defects that were found with this model (and repaired in /repo by
+2b701f0 and 1bc24e0) expressible; their values are the CURRENT code:
+  `bufLen`             length of the stack buffer in `AnsiWriter::set_style`   (13; before the fix: 12)
+  `ttyOnlyUsesIsatty`  `do_write` decided from an isatty test of the target stream (true; before the
+                       fix `false`: decided from "a colour ConsoleWriter was obtained")
+Every function that depends on one of them also exists with it as an explicit argument
+(`setStyleN`, `doWriteWith`, `appendWith`, …); the `Hist_C18_*` theorems speak about the old values.
+unix only: on other platforms `target_is_tty` still is `writer.is_tty()` (append/console.rs).
 Bytes are `Nat`s (`List Nat`), as everywhere in this project.
 -/
 namespace Log4rs.Console
 
-/-! ### flags (defaults = current code) -/
+/-! ### parameters (values = current code) -/
 
-/-- `let mut buf = [0; 12];` in `AnsiWriter::set_style` -/
+/-- `let mut buf = [0; 13];` in `AnsiWriter::set_style` -/
 def bufLen : Nat := 13
 
-/-- `false`: `do_write = writer.is_tty() || !tty_only`, where `is_tty` means "`Writer::Tty`", i.e.
-a colour `ConsoleWriter` was obtained. `true`: `do_write = isatty(target) || !tty_only`. -/
+/-- `true`: `do_write = target_is_tty(target) || !tty_only` (isatty of the target's descriptor).
+`false` (the code before 1bc24e0): `do_write = writer.is_tty() || !tty_only`, where `is_tty` means
+"`Writer::Tty`", i.e. a colour `ConsoleWriter` was obtained. -/
 def ttyOnlyUsesIsatty : Bool := true
 
 /-! ### environment → colour mode (`static COLOR_MODE`) -/
 
-/-- what the code can distinguish about one environment variable: absent, the string `0`,
-any other string (the harness uses `1`) -/
+/-- what the code can distinguish about one environment variable: absent, the string `0`, any
+other valid-Unicode string (`1`, the empty string, `00`, `false`, … — the harness drives several),
+and a value that is not valid Unicode (`env::var` answers `Err(NotUnicode)`, which `unwrap_or`
+treats like an absent variable). The property quantifies over `unset`, `zero`, `one` only. -/
 inductive EnvVal where
-  | unset | zero | one
+  | unset | zero | one | nonUnicode
   deriving Repr, DecidableEq
 
 /-- `std::env::var(NAME).map(|var| var != "0").unwrap_or(dflt)` -/
@@ -44,6 +48,7 @@ def EnvVal.test (v : EnvVal) (dflt : Bool) : Bool :=
   | .unset => dflt
   | .zero => false
   | .one => true
+  | .nonUnicode => dflt
 
 structure Env where
   noColor : EnvVal := .unset
@@ -230,25 +235,39 @@ def Streams.on (t : Target) (bs : Bytes) : Streams :=
   | .stdout => { out := bs }
   | .stderr => { err := bs }
 
-/-- `ConsoleAppenderBuilder::build` followed by one `append` of a record of level `level` whose
-encoder is the pattern `cs`. -/
-def appendWith (n : Nat) (usesIsatty : Bool) (s : Setup) (level : Nat) (cs : Chunks) :
-    Outcome Unit Streams :=
+/-- the appender's encoder, abstractly: the bytes it writes for a record of the given level into a
+writer of the given kind (the pattern is fixed per appender) -/
+abbrev Enc := WriterKind → Nat → Outcome Unit Bytes
+
+/-- `ConsoleAppenderBuilder::build` followed by one `append` of a record of level `level` -/
+def appendEnc (usesIsatty : Bool) (s : Setup) (enc : Enc) (level : Nat) : Outcome Unit Streams :=
   let kind := writerKind (colorMode s.env) s.targetIsatty
   if doWriteWith usesIsatty kind s.targetIsatty s.ttyOnly then
-    obind (encodeChunksN n kind level cs) fun bs => .ok (Streams.on s.target bs)
+    obind (enc kind level) fun bs => .ok (Streams.on s.target bs)
   else .ok {}
+
+/-- several records, one after the other -/
+def appendAllEnc (usesIsatty : Bool) (s : Setup) (enc : Enc) : List Nat → Outcome Unit Streams
+  | [] => .ok {}
+  | l :: ls =>
+    obind (appendEnc usesIsatty s enc l) fun a =>
+    obind (appendAllEnc usesIsatty s enc ls) fun b =>
+    .ok { out := a.out ++ b.out, err := a.err ++ b.err }
+
+/-- the encoder of a pattern without width parameters (`cs l` = the pattern, with `{l}`/`{m}`
+already resolved for level `l`) -/
+def chunksEnc (n : Nat) (cs : Nat → Chunks) : Enc := fun kind l => encodeChunksN n kind l (cs l)
+
+def appendWith (n : Nat) (usesIsatty : Bool) (s : Setup) (level : Nat) (cs : Chunks) :
+    Outcome Unit Streams :=
+  appendEnc usesIsatty s (fun kind l => encodeChunksN n kind l cs) level
 
 def append (s : Setup) (level : Nat) (cs : Chunks) : Outcome Unit Streams :=
   appendWith bufLen ttyOnlyUsesIsatty s level cs
 
-/-- several records, one after the other -/
-def appendAllWith (n : Nat) (usesIsatty : Bool) (s : Setup) (cs : Nat → Chunks) : List Nat → Outcome Unit Streams
-  | [] => .ok {}
-  | l :: ls =>
-    obind (appendWith n usesIsatty s l (cs l)) fun a =>
-    obind (appendAllWith n usesIsatty s cs ls) fun b =>
-    .ok { out := a.out ++ b.out, err := a.err ++ b.err }
+def appendAllWith (n : Nat) (usesIsatty : Bool) (s : Setup) (cs : Nat → Chunks) (levels : List Nat) :
+    Outcome Unit Streams :=
+  appendAllEnc usesIsatty s (chunksEnc n cs) levels
 
 def appendAll (s : Setup) (cs : Nat → Chunks) (levels : List Nat) : Outcome Unit Streams :=
   appendAllWith bufLen ttyOnlyUsesIsatty s cs levels
@@ -257,16 +276,19 @@ def appendAll (s : Setup) (cs : Nat → Chunks) (levels : List Nat) : Outcome Un
 
 What is process-wide in the code: the environment, the two file descriptors, and
 `static COLOR_MODE: Lazy<ColorMode>` (initialised from the environment by whoever dereferences it
-first). What is per appender: the builder's two fields and the three values `build` computes. The
-model keeps the lazy cell explicit, and the builder's setter calls explicit, so that "an appender
-depends on nothing but its own target's terminal status, the environment and its own tty_only
-flag" is a theorem (`C18_appenders_independent`) and not the shape of a definition. -/
+first, never re-read). What is per appender: the builder's two fields and the three values `build`
+computes. The model keeps the lazy cell explicit, the builder's setter calls explicit, and lets the
+environment differ from build to build (`buildAllEnvs`), so that both "an appender depends on
+nothing but its own target's terminal status, the environment and its own tty_only flag — as long
+as the environment does not change after the first console writer" (`C18_appenders_independent`)
+and "a later change of the environment is ignored" (`C18_color_mode_read_once`) are theorems. -/
 
 /-- in which order the builder's setters are called / whether the config deserializer calls them -/
 inductive CallOrder where
   | targetThenTtyOnly   -- `.target(t).tty_only(b)`
   | ttyOnlyThenTarget   -- `.tty_only(b).target(t)`
-  | viaConfig           -- `ConsoleAppenderDeserializer`: `target` key, then `tty_only` key
+  | viaConfig           -- `ConsoleAppenderDeserializer`, both keys present: `target`, then `tty_only`
+  | viaConfigOmitDefaults  -- the same, a key is left out when its value is the default (stdout / false)
   deriving Repr, DecidableEq
 
 structure PlanItem where
@@ -275,7 +297,8 @@ structure PlanItem where
   order : CallOrder
   deriving Repr, DecidableEq
 
-/-- `ConsoleAppenderBuilder` (the encoder field is the pattern, fixed per run) -/
+/-- `ConsoleAppenderBuilder` (the encoder field is the pattern, fixed per run);
+defaults of `ConsoleAppender::builder()` -/
 structure Builder where
   target : Target := .stdout
   ttyOnly : Bool := false
@@ -287,12 +310,25 @@ def Builder.setTarget (b : Builder) (t : Target) : Builder := { b with target :=
 /-- `fn tty_only(mut self, tty_only)`: stores, nothing else -/
 def Builder.setTtyOnly (b : Builder) (x : Bool) : Builder := { b with ttyOnly := x }
 
+/-- `ConsoleAppenderDeserializer::deserialize`: `if let Some(target)`, `if let Some(tty_only)` -/
+def Builder.fromConfig (target : Option Target) (ttyOnly : Option Bool) : Builder :=
+  let b : Builder := {}
+  let b := match target with
+    | some t => b.setTarget t
+    | none => b
+  match ttyOnly with
+  | some x => b.setTtyOnly x
+  | none => b
+
 /-- the setter calls an item stands for, starting from `ConsoleAppender::builder()` -/
 def builderOf (it : PlanItem) : Builder :=
   match it.order with
   | .targetThenTtyOnly => (({} : Builder).setTarget it.target).setTtyOnly it.ttyOnly
   | .ttyOnlyThenTarget => (({} : Builder).setTtyOnly it.ttyOnly).setTarget it.target
-  | .viaConfig => (({} : Builder).setTarget it.target).setTtyOnly it.ttyOnly
+  | .viaConfig => Builder.fromConfig (some it.target) (some it.ttyOnly)
+  | .viaConfigOmitDefaults =>
+    Builder.fromConfig (if it.target = .stdout then none else some it.target)
+      (if it.ttyOnly then some true else none)
 
 /-- process-wide facts -/
 structure Global where
@@ -310,7 +346,7 @@ structure Proc where
   colorCell : Option ColorMode := none
   deriving Repr, DecidableEq
 
-/-- `*COLOR_MODE` -/
+/-- `*COLOR_MODE` with the environment as it is at this moment -/
 def Proc.derefColorMode (p : Proc) (env : Env) : ColorMode × Proc :=
   match p.colorCell with
   | some m => (m, p)
@@ -323,46 +359,56 @@ structure Built where
   doWrite : Bool
   deriving Repr, DecidableEq
 
-/-- `ConsoleAppenderBuilder::build`: `ConsoleWriter::stdout()/stderr()` (dereferences COLOR_MODE,
-asks `isatty` of THAT stream's descriptor), then `do_write` -/
+/-- `ConsoleAppenderBuilder::build` while the environment is `g.env`: `ConsoleWriter::stdout()/
+stderr()` (dereferences COLOR_MODE, asks `isatty` of THAT stream's descriptor), then `do_write` -/
 def buildWith (usesIsatty : Bool) (g : Global) (p : Proc) (b : Builder) : Built × Proc :=
   let r := p.derefColorMode g.env
   let kind := writerKind r.1 (g.isatty b.target)
   ({ target := b.target, kind := kind,
      doWrite := doWriteWith usesIsatty kind (g.isatty b.target) b.ttyOnly }, r.2)
 
-def buildAllWith (usesIsatty : Bool) (g : Global) : Proc → List PlanItem → List Built × Proc
+/-- builds in order; each step comes with the environment at the time of that build -/
+def buildAllEnvs (usesIsatty : Bool) (ttyOut ttyErr : Bool) :
+    Proc → List (Env × PlanItem) → List Built × Proc
   | p, [] => ([], p)
-  | p, it :: its =>
-    let r := buildWith usesIsatty g p (builderOf it)
-    let rs := buildAllWith usesIsatty g r.2 its
+  | p, (env, it) :: its =>
+    let r := buildWith usesIsatty { env := env, ttyOut := ttyOut, ttyErr := ttyErr } p (builderOf it)
+    let rs := buildAllEnvs usesIsatty ttyOut ttyErr r.2 its
     (r.1 :: rs.1, rs.2)
+
+/-- the environment does not change during the process -/
+def buildAllWith (usesIsatty : Bool) (g : Global) (p : Proc) (items : List PlanItem) : List Built × Proc :=
+  buildAllEnvs usesIsatty g.ttyOut g.ttyErr p (items.map fun it => (g.env, it))
 
 def Streams.append (a b : Streams) : Streams := { out := a.out ++ b.out, err := a.err ++ b.err }
 
 /-- `ConsoleAppender::append` -/
-def appendBuilt (n : Nat) (a : Built) (level : Nat) (cs : Chunks) : Outcome Unit Streams :=
+def appendBuilt (a : Built) (enc : Enc) (level : Nat) : Outcome Unit Streams :=
   if a.doWrite then
-    obind (encodeChunksN n a.kind level cs) fun bs => .ok (Streams.on a.target bs)
+    obind (enc a.kind level) fun bs => .ok (Streams.on a.target bs)
   else .ok {}
 
-def appendBuiltLevels (n : Nat) (a : Built) (cs : Nat → Chunks) : List Nat → Outcome Unit Streams
+def appendBuiltLevels (a : Built) (enc : Enc) : List Nat → Outcome Unit Streams
   | [] => .ok {}
   | l :: ls =>
-    obind (appendBuilt n a l (cs l)) fun x =>
-    obind (appendBuiltLevels n a cs ls) fun y => .ok (x.append y)
+    obind (appendBuilt a enc l) fun x =>
+    obind (appendBuiltLevels a enc ls) fun y => .ok (x.append y)
 
-def appendAllBuilt (n : Nat) (cs : Nat → Chunks) (levels : List Nat) : List Built → Outcome Unit Streams
+def appendAllBuilt (enc : Enc) (levels : List Nat) : List Built → Outcome Unit Streams
   | [] => .ok {}
   | a :: as =>
-    obind (appendBuiltLevels n a cs levels) fun x =>
-    obind (appendAllBuilt n cs levels as) fun y => .ok (x.append y)
+    obind (appendBuiltLevels a enc levels) fun x =>
+    obind (appendAllBuilt enc levels as) fun y => .ok (x.append y)
 
 /-- the child process of the harness: build every appender of the plan in order, then let each
 append one record per level -/
+def runPlanEnc (usesIsatty : Bool) (g : Global) (items : List PlanItem) (enc : Enc)
+    (levels : List Nat) : Outcome Unit Streams :=
+  appendAllBuilt enc levels (buildAllWith usesIsatty g {} items).1
+
 def runPlanWith (n : Nat) (usesIsatty : Bool) (g : Global) (items : List PlanItem)
     (cs : Nat → Chunks) (levels : List Nat) : Outcome Unit Streams :=
-  appendAllBuilt n cs levels (buildAllWith usesIsatty g {} items).1
+  runPlanEnc usesIsatty g items (chunksEnc n cs) levels
 
 def runPlan (g : Global) (items : List PlanItem) (cs : Nat → Chunks) (levels : List Nat) :
     Outcome Unit Streams :=
@@ -377,9 +423,25 @@ def seqStreams : List (Outcome Unit Streams) → Outcome Unit Streams
   | [] => .ok {}
   | x :: xs => obind x fun a => obind (seqStreams xs) fun b => .ok (a.append b)
 
+/-! ### a stream that stops accepting bytes
+
+The model above is the world in which `write_all` to stdout/stderr succeeds. The console appender
+writes straight into the locked stream (no encode-to-memory step), and `Highlight::encode` returns
+on the first error (`chunk.encode(w, record)?`) before its reset. What can be said then is only
+about prefixes: a stream that accepts `budget` more bytes and fails afterwards has received a
+prefix of what the appender wanted to write, and the appender reports the error. -/
+
+/-- what reaches a stream that accepts `budget` bytes and then fails every write -/
+def deliver (budget : Nat) (bs : Bytes) : Outcome Unit Bytes × Bytes :=
+  if bs.length ≤ budget then (.ok bs, bs) else (.err (), bs.take budget)
+
 /-! ### finite tables the theorems enumerate -/
 
+/-- the values the property quantifies over -/
 def allEnvVals : List EnvVal := [.unset, .zero, .one]
+
+/-- … and with the value outside the quantifier -/
+def allEnvValsExt : List EnvVal := [.unset, .zero, .one, .nonUnicode]
 
 def allEnvs : List Env :=
   allEnvVals.flatMap fun a => allEnvVals.flatMap fun b => allEnvVals.map fun c =>
@@ -389,12 +451,20 @@ def allColors : List (Option Nat) := [none, some 0, some 1, some 2, some 3, some
 
 def allIntense : List (Option Bool) := [none, some true, some false]
 
+def allEnvsExt : List Env :=
+  allEnvValsExt.flatMap fun a => allEnvValsExt.flatMap fun b => allEnvValsExt.map fun c =>
+    { noColor := a, clicolor := b, clicolorForce := c }
+
+/-- inside the property's quantifier: every variable is unset, "0" or another Unicode string -/
+def Env.inQuantifier (e : Env) : Bool :=
+  e.noColor != .nonUnicode && e.clicolor != .nonUnicode && e.clicolorForce != .nonUnicode
+
 /-- the 243 styles: 9 text × 9 background × 3 intensity -/
 def allStyles : List Style :=
   allColors.flatMap fun t => allColors.flatMap fun b => allIntense.map fun i =>
     { text := t, background := b, intense := i }
 
-/-- F1's input class: text + background + `intense(false)` needs 13 bytes -/
+/-- the input class of the repaired buffer overflow: text + background + `intense(false)` needs 13 bytes -/
 def overflowClass (s : Style) : Bool :=
   s.text.isSome && s.background.isSome && s.intense == some false
 
